@@ -2171,6 +2171,97 @@ pub fn suite_record_product(out: &mut Out, tier: &str, rng: &mut Rng) {
     }
 }
 
+/// small value spaces taken whole, and two-way products the protocol gives meaning to: Result Code x Error Code x
+/// message, Protocol Version x revision, every message type x every AVP kind, zero / equal header ids per
+/// message type, Ns/Nr relations of data messages, Q.931 cause x message
+pub fn suite_value_products(out: &mut Out, tier: &str, rng: &mut Rng) {
+    let ctl_of = |avps: Vec<Value>, ids: [u16; 4]| json!({"k": "Control", "length": 0, "tunnel_id": ids[0], "session_id": ids[1], "ns": ids[2], "nr": ids[3], "avps": avps});
+    let mut emit_avp = |out: &mut Out, a: Value, n: usize, rng: &mut Rng| {
+        out.emit(json!({"op": "roundtrip", "kind": "avp", "v": a}));
+        out.emit(json!({"op": "decode_payload", "t": avp_type(&a), "in": bytes_json(&enc_payload(&a)), "rdr": "slice"}));
+        if n % 3 == 0 {
+            let m = json!({"k": "Control", "length": 0, "tunnel_id": 1, "session_id": 2, "ns": 3, "nr": 4, "avps": [gen_message_type(rng), a]});
+            out.emit(json!({"op": "chain", "in": bytes_json(&enc_control(&m)), "opts": [true, true, true]}));
+        }
+    };
+    // Result Code: code x (no error | error type x (no message | message))
+    let err_names: Vec<&str> = ERR_TYPES.iter().map(|e| e.1).collect();
+    let mut n = 0usize;
+    let codes: Vec<u16> = (0..=16u16).chain([255, 256, 65535]).collect();
+    for &code in codes.iter() {
+        n += 1;
+        emit_avp(out, json!({"k": "ResultCode", "f": [code, [], []]}), n, rng);
+        for e in err_names.iter() {
+            for msg in [None, Some("x"), Some("Try another LNS")] {
+                n += 1;
+                let a = json!({"k": "ResultCode", "f": [code, [e], opt_json(msg.map(|m| bytes_json(m.as_bytes())))]});
+                emit_avp(out, a, n, rng);
+            }
+        }
+    }
+    // Protocol Version x revision, Q.931 cause code x cause message x advisory
+    let small: Vec<u64> = (0..=16u64).chain([127, 128, 255]).collect();
+    for &v in small.iter() {
+        for &r in small.iter() {
+            n += 1;
+            emit_avp(out, json!({"k": "ProtocolVersion", "f": [v, r]}), n, rng);
+        }
+    }
+    for &c in [0u64, 1, 16, 17, 31, 127, 128, 255, 256, 65535].iter() {
+        for &mm in small.iter() {
+            for adv in [None, Some("a"), Some("call rejected")] {
+                n += 1;
+                emit_avp(out, json!({"k": "Q931CauseCode", "f": [c, mm, opt_json(adv.map(|m| bytes_json(m.as_bytes())))]}), n, rng);
+            }
+        }
+    }
+    // every message type followed by every AVP kind (and a hidden AVP); header ids zero / equal / distinct
+    for (mi, (_, mt)) in MSG_TYPES.iter().enumerate() {
+        for k in 0..=KINDS.len() {
+            let a = if k < KINDS.len() { gen_avp_kind(rng, k, 6) } else { gen_hidden(rng, 16) };
+            let x = rng.u16();
+            let ids = match (mi + k) % 5 {
+                0 => [0, 0, 0, 0],
+                1 => [x, 0, 0, 0],
+                2 => [x, x, x, x],
+                3 => [0, x, 1, 0],
+                _ => [rng.u16(), rng.u16(), rng.u16(), rng.u16()],
+            };
+            let m = ctl_of(vec![json!({"k": "MessageType", "f": [mt]}), a], ids);
+            out.emit(json!({"op": "roundtrip", "kind": "msg", "v": m}));
+            if (mi + k) % 4 == 0 || tier == "thorough" {
+                out.emit(json!({"op": "chain", "in": bytes_json(&enc_control(&m)), "opts": [true, true, true]}));
+            }
+        }
+    }
+    // data messages: Ns / Nr relations, equal ids, both priorities, with and without Length
+    let base = [0u16, 1, 255, 256, 32767, 32768, 65534, 65535];
+    for &a in base.iter() {
+        for rel in 0..6 {
+            let b = match rel { 0 => a, 1 => a.wrapping_add(1), 2 => a.wrapping_sub(1), 3 => !a, 4 => a.swap_bytes(), _ => rng.u16() };
+            for shape in 0..4usize {
+                let data = rng.rbytes(1, 9);
+                let has_len = shape & 1 == 1;
+                let total = 2 + if has_len { 2 } else { 0 } + 4 + 4 + data.len();
+                let d = json!({"k": "Data", "prio": shape & 2 == 2, "length": if has_len { json!([total]) } else { json!([]) },
+                               "tunnel_id": if rel % 2 == 0 { a } else { b }, "session_id": b, "ns_nr": [[a, b]], "offset": [], "data": bytes_json(&data)});
+                out.emit(json!({"op": "roundtrip", "kind": "msg", "v": d}));
+            }
+        }
+    }
+    // Call Errors / ACCM with equal, zero and all-ones counters
+    for pat in 0..8usize {
+        let w = |i: usize| -> Vec<u8> { match (pat + i) % 4 { 0 => vec![0; 4], 1 => vec![0xff; 4], 2 => vec![0, 0, 0, 1], _ => vec![1, 2, 3, 4] } };
+        let same = w(0);
+        let ce = json!({"k": "CallErrors", "f": (0..6).map(|i| bytes_json(&if pat < 4 { same.clone() } else { w(i) })).collect::<Vec<_>>()});
+        n += 1;
+        emit_avp(out, ce, n, rng);
+        let accm = json!({"k": "Accm", "f": [bytes_json(&w(0)), bytes_json(&if pat < 4 { w(0) } else { w(1) })]});
+        n += 1;
+        emit_avp(out, accm, n, rng);
+    }
+}
+
 /// octets inserted at structural boundaries of a valid message (after the flags, after the header, between
 /// AVPs, at the end), with and without the Length field adjusted
 fn padded_variants(rng: &mut Rng, base: &[u8]) -> Vec<Vec<u8>> {
